@@ -428,14 +428,18 @@ func (n *TreeNodeInstance) createValueAndVerify(t reflect.Type, msg *ProtocolMsg
 	tr := n.Tree()
 	if t != nil {
 		tn := tr.Search(msg.From.TreeNodeID)
-		if tn != nil {
-			m.Field(0).Set(reflect.ValueOf(tn))
-			m.Field(1).Set(reflect.Indirect(reflect.ValueOf(msg.Msg)))
+		if tn == nil {
+			// A sender that is not a node of this tree must not reach the
+			// protocol, not even as an empty (nil TreeNode, zero message) value.
+			return m, xerrors.Errorf("the tree node referenced by the message (%v) is not part of tree %v",
+				msg.From.TreeNodeID, tr.ID)
 		}
+		m.Field(0).Set(reflect.ValueOf(tn))
+		m.Field(1).Set(reflect.Indirect(reflect.ValueOf(msg.Msg)))
 		// Check whether the sender treenode actually is the same as the node who sent it.
 		// We can trust msg.ServerIdentity, because it is written in Router.handleConn and
 		// is not writable by the sending node.
-		if msg.ServerIdentity != nil && tn != nil && !tn.ServerIdentity.Equal(msg.ServerIdentity) {
+		if msg.ServerIdentity != nil && !tn.ServerIdentity.Equal(msg.ServerIdentity) {
 			return m, xerrors.Errorf("ServerIdentity in the tree node referenced by the message (%v) does not match the ServerIdentity of the message originator (%v)",
 				tn.ServerIdentity, msg.ServerIdentity)
 		}
